@@ -82,6 +82,8 @@ struct Table {
         // in one table of six one of the four IPv4 values is 0.0.0.0 - the address of a host that has none yet (a request whose source
         // was left unset): between unicast peers it is matched like any other address (only broadcast destinations are exempt)
         if (rng.below(6) == 0) v[IP4][1 + rng.below(4)] = Bytes(4, 0);
+        // ... and in one table of three the "fresh" VLAN identifier (the one a perturbed reply carries) is 0, the priority tag
+        if (rng.below(3) == 0 && v[VID][1] != Bytes(2, 0) && v[VID][2] != Bytes(2, 0)) v[VID][3] = Bytes(2, 0);
     }
     const Bytes& get(Cls c, long k) const { return v[c][k >= 1 && k <= 4 ? k : 1]; }
     uint16_t u16(Cls c, long k) const { const Bytes& b = get(c, k); return (uint16_t)((b[0] << 8) | b[1]); }
